@@ -436,7 +436,8 @@ def _read_yields_section(
                     raise ValueError
                 if isinstance(yield_item, ExprName):
                     annotation = yield_item
-                elif yield_item.is_tuple:
+                elif yield_item.is_tuple and len(items) > 1:
+                    # Several items document the elements of the tuple, a single one the whole tuple.
                     annotation = yield_item.slice.elements[index]
                 else:
                     annotation = yield_item
@@ -481,7 +482,8 @@ def _read_receives_section(
                     receives_item = annotation.slice.elements[1]
                     if isinstance(receives_item, ExprName):
                         annotation = receives_item
-                    elif receives_item.is_tuple:
+                    elif receives_item.is_tuple and len(items) > 1:
+                        # Several items document the elements of the tuple, a single one the whole tuple.
                         annotation = receives_item.slice.elements[index]
                     else:
                         annotation = receives_item
